@@ -482,3 +482,29 @@ func runTimerResetNeedsValidation(c *Ctx, rule string) {
 		c.R.OK(rule, key, c.P.Pos(a.rs.Pos()), "the re-stamped session is saved only after sessionValidator answered true")
 	}
 }
+
+// runPartNamesMatchTheSweep (C11.R12, C10.R12) — reports defect 18, recorded as a KNOWN FINDING (known_findings.json;
+// DESIGN §7). The loader finds the parts of a split session by splitCookieName(name, i); Clear and the stale-cookie sweep
+// of Save select them by ^QuoteMeta(name)(_\d+)?$. The two agree only while splitCookieName returns name_i. It
+// TRUNCATES the name when name_i would exceed 256 bytes, and validation accepts names of up to 256 bytes: for a 255-byte
+// name every part is called name[:254]_i, which the sweeps never match — sign-out reports success and leaves every part
+// in the browser. The rule: the name operand of splitCookieName's result is the parameter itself on every path.
+func runPartNamesMatchTheSweep(c *Ctx, rule string) {
+	fn := c.Fn(rule, "pkg/sessions/cookie.splitCookieName")
+	if fn == nil || len(fn.Params) == 0 {
+		return
+	}
+	key := "part-name-is-name_i|" + fnKey(fn)
+	bad := false
+	for _, b := range fn.Blocks {
+		for _, in := range b.Instrs {
+			if sl, ok := in.(*ssa.Slice); ok && unwrap0(sl.X) == ssa.Value(fn.Params[0]) && !bad {
+				bad = true
+				c.R.Bad(rule, key, c.pos(in), "splitCookieName cuts the configured cookie name short for long names: the part names it hands the splitter and the loader are then not of the form name_i, which is what Clear and the stale-cookie sweep select by — for a validated cookie name of 255 or 256 bytes sign-out leaves every part of a split session in the browser and the session loads again", nil, nil)
+			}
+		}
+	}
+	if !bad {
+		c.R.OK(rule, key, c.P.Pos(fn.Pos()), "part names are always <configured name>_<i>")
+	}
+}
